@@ -774,8 +774,20 @@ func nodeText(fset *token.FileSet, n ast.Node) string {
 	return s
 }
 
+// view: the view under which this function is being verified ("" = primary)
+func (t *FnTrans) view() string {
+	if t.con != nil {
+		return t.con.View
+	}
+	return ""
+}
+
 func (t *FnTrans) oblName(kind, text string) string {
-	base := fmt.Sprintf("%s.%s/%s", t.pkg.Name(), fnKey(t.fn), kind)
+	fk := fnKey(t.fn)
+	if v := t.view(); v != "" {
+		fk += "@" + v
+	}
+	base := fmt.Sprintf("%s.%s/%s", t.pkg.Name(), fk, kind)
 	if text != "" {
 		base += ":" + text
 	}
@@ -1113,7 +1125,7 @@ func (t *FnTrans) callMods(c *ssa.CallCommon, li *loopInfo) {
 	if t.W.isPureFrame(callee) || t.W.intrinsicPure(callee) {
 		return
 	}
-	if con := t.W.contractFor(callee); con != nil {
+	if con := t.W.contractForView(callee, t.view()); con != nil {
 		if con.Pure {
 			return
 		}
@@ -1796,7 +1808,7 @@ func (t *FnTrans) escapeAnalysis() {
 					if t.W.intrinsicPure(callee) {
 						pure = true
 					}
-					if con := t.W.contractFor(callee); con != nil && con.Pure {
+					if con := t.W.contractForView(callee, t.view()); con != nil && con.Pure {
 						pure = true
 					}
 				}
